@@ -58,6 +58,19 @@ static void check_is(const char* want, int n, const char* what) {
 #define REFUSED(call, what) if (NONHEAP) { expect_throw = 1; expect_exc = ValueError; COVER_ALT(1, what " on a stack String"); call; ASSERT(0, "[C19] " what " on a stack String raises ValueError instead of reallocating"); return; }
 
 void h_assign(void) { build(); REFUSED(String_Assign(sa, sb), "assign") String_Assign(sa, sb); check_is(in_b, LB, "assign"); ASSERT(sa->val != bbuf, "[C10] assign copies the characters, it does not share the buffer"); COVER_ALT(1, "assign"); }
+/* operand overlapping the target: ALIAS 1 = the String itself, ALIAS 2 = a stack String viewing the target's own buffer from offset 1 */
+#ifndef ALIAS
+#define ALIAS 1
+#endif
+static void make_alias(void) { if (ALIAS == 1) sb = sa; else sb->val = sa->val + (LA > 0 ? 1 : 0); }
+#define AOFF (ALIAS == 1 || LA == 0 ? 0 : 1)
+static void check_alias_result(const char* want, int n) {
+  ASSERT(__CPROVER_r_ok(sa->val, n + 1), "[C16] the String stays NUL-terminated inside its own allocation");
+  for (int i = 0; i < n; i++) ASSERT(sa->val[i] == want[i], "[C16] the String holds exactly the characters of the abstract string (operand overlapping the target)");
+  ASSERT(sa->val[n] == 0 && String_Len(sa) == (size_t)n, "[C16] the String stays NUL-terminated inside its own allocation");
+}
+void h_assign_alias(void) { build(); make_alias(); String_Assign(sa, sb); check_alias_result(in_a + AOFF, LA - AOFF); COVER_ALT(1, "assign alias"); }
+void h_concat_alias(void) { build(); make_alias(); String_Concat(sa, sb); char w[2 * LA + 1]; for (int i = 0; i < LA; i++) w[i] = in_a[i]; for (int i = 0; i + AOFF <= LA; i++) w[LA + i] = in_a[i + AOFF]; check_alias_result(w, 2 * LA - AOFF); COVER_ALT(1, "concat alias"); }
 void h_concat(void) { build(); REFUSED(String_Concat(sa, sb), "concat") String_Concat(sa, sb); char w[LA + LB + 1]; for (int i = 0; i < LA; i++) w[i] = in_a[i]; for (int i = 0; i <= LB; i++) w[LA + i] = in_b[i]; check_is(w, LA + LB, "concat"); COVER_ALT(1, "concat"); }
 void h_resize(void) { build(); REFUSED(String_Resize(sa, RESIZE_TO), "resize") String_Resize(sa, RESIZE_TO); check_is(in_a, RESIZE_TO < LA ? RESIZE_TO : LA, "resize"); ASSERT(__CPROVER_r_ok(sa->val, RESIZE_TO + 1), "[C16] resize(n) makes room for n characters"); COVER_ALT(1, "resize"); }
 void h_clear(void) { build(); REFUSED(String_Clear(sa), "clear") String_Clear(sa); check_is("", 0, "clear"); COVER_ALT(1, "clear"); }
